@@ -1,5 +1,77 @@
-(* HyperBasics.v — first facts about the Hyper model. *)
-From PG Require Import Common.Tactics Model.Geno Model.Hyper.
+(* HyperBasics.v — induction principle and elementary lemmas of the Hyper model. *)
+From PG Require Import Common.Tactics Model.Geno Proofs.GenoBasics Model.Hyper Model.HyperSpec.
 
 Lemma dna_spec_elements : forall w t, elements (dna_spec w t) = pts w [] t.
 Proof. reflexivity. Qed.
+
+(* ---- induction over templates (children through lists) ------------------------------------------ *)
+Section TmplInd.
+  Variable P : tmpl -> Prop.
+  Hypothesis Hleaf : forall l, P (TLeaf l).
+  Hypothesis Hdict : forall kvs, Forall (fun kv => P (snd kv)) kvs -> P (TDict kvs).
+  Hypothesis Hobj : forall c kvs, Forall (fun kv => P (snd kv)) kvs -> P (TObj c kvs).
+  Hypothesis Hlist : forall ts, Forall P ts -> P (TList ts).
+  Hypothesis Hone : forall cands a, Forall P cands -> P (TOneOf cands a).
+  Hypothesis Hmany : forall k cands d s a, Forall P cands -> P (TManyOf k cands d s a).
+  Hypothesis Hfloat : forall lo hi a, P (TFloat lo hi a).
+  Hypothesis Hcustom : forall ck a, P (TCustom ck a).
+  Fixpoint tmpl_ind' (t : tmpl) : P t :=
+    let kvs_all := fix go (l : list (str * tmpl)) : Forall (fun kv => P (snd kv)) l :=
+      match l with [] => Forall_nil _ | kv :: r => Forall_cons kv (tmpl_ind' (snd kv)) (go r) end in
+    let ts_all := fix go (l : list tmpl) : Forall P l :=
+      match l with [] => Forall_nil _ | x :: r => Forall_cons x (tmpl_ind' x) (go r) end in
+    match t with
+    | TLeaf l => Hleaf l
+    | TDict kvs => Hdict kvs (kvs_all kvs)
+    | TObj c kvs => Hobj c kvs (kvs_all kvs)
+    | TList ts => Hlist ts (ts_all ts)
+    | TOneOf cands a => Hone cands a (ts_all cands)
+    | TManyOf k cands d s a => Hmany k cands d s a (ts_all cands)
+    | TFloat lo hi a => Hfloat lo hi a
+    | TCustom ck a => Hcustom ck a
+    end.
+End TmplInd.
+
+(* ---- lists ------------------------------------------------------------------------------------------- *)
+Lemma forallb2_nil_l : forall A B (f : A -> B -> bool) l, forallb2 f [] l = true -> l = [].
+Proof. destruct l; simpl; auto; discriminate. Qed.
+
+Lemma forallb2_app_l : forall A B (f : A -> B -> bool) a b ds,
+  forallb2 f (a ++ b) ds = true ->
+  exists d1 d2, ds = d1 ++ d2 /\ forallb2 f a d1 = true /\ forallb2 f b d2 = true.
+Proof.
+  induction a; simpl; intros.
+  - exists [], ds; auto.
+  - destruct ds; try discriminate. apply andb_true_iff in H as [H1 H2].
+    destruct (IHa _ _ H2) as (d1 & d2 & -> & Ha & Hb).
+    exists (b0 :: d1), d2; simpl; rewrite H1, Ha; auto.
+Qed.
+
+Lemma forallb2_app : forall A B (f : A -> B -> bool) a b d1 d2,
+  forallb2 f a d1 = true -> forallb2 f b d2 = true -> forallb2 f (a ++ b) (d1 ++ d2) = true.
+Proof.
+  induction a; destruct d1; simpl; intros; try discriminate; auto.
+  apply andb_true_iff in H as [H1 H2]. rewrite H1; simpl; auto.
+Qed.
+
+Lemma forallb2_length : forall A B (f : A -> B -> bool) a b, forallb2 f a b = true -> length a = length b.
+Proof. induction a; destruct b; simpl; intros; try discriminate; auto. apply andb_true_iff in H as [_ H]. f_equal; auto. Qed.
+
+Lemma with_nth_map : forall A B C (g : A -> B) (f : B -> C) d l n,
+  with_nth f d (map g l) n = with_nth (fun x => f (g x)) d l n.
+Proof. induction l; destruct n; simpl; auto. Qed.
+
+Lemma Forall2_length' : forall A B (R : A -> B -> Prop) l1 l2, Forall2 R l1 l2 -> length l1 = length l2.
+Proof. induction 1; simpl; auto. Qed.
+
+Lemma str_eqb_refl : forall s, str_eqb s s = true.
+Proof. unfold str_eqb. induction s; simpl; auto. rewrite N.compare_refl. auto. Qed.
+
+Lemma str_eqb_eq : forall s t, str_eqb s t = true -> s = t.
+Proof.
+  unfold str_eqb. induction s; destruct t; simpl; intros; try discriminate; auto.
+  destruct (N.compare a n) eqn:E; try discriminate. apply N.compare_eq in E; subst. f_equal; auto.
+Qed.
+
+Lemma str_eqb_neq : forall s t, str_eqb s t = false -> s <> t.
+Proof. intros s t H E; subst. rewrite str_eqb_refl in H; discriminate. Qed.
